@@ -20,6 +20,9 @@
 (*   listings whose backend yields items and THEN the error: the error     *)
 (*             arrives at every level (all laws above), after exactly the  *)
 (*             items of the pages before the failing one                   *)
+(*   writer carriers (the backend's BlobWriter fails in Write, Close or    *)
+(*             Commit): status, code, detail, identity as above; the       *)
+(*             registry's message must survive as the end of the message   *)
 (***************************************************************************)
 EXTENDS OciError, Json, IOUtils, TraceHdr
 
@@ -34,12 +37,21 @@ TrStdMsg == [c \in StdCodes |-> Hdr.stdmsg[c]]
 ToSet(s) == {s[i] : i \in 1..Len(s)}
 RI == "RANGE_INVALID"
 
+\* Writer carriers: the error is raised by a method of the backend's BlobWriter, reached through
+\* the closing PUT of PushBlob (WPushBlob), Write within the chunk size then Commit (WWriteCommit),
+\* a Write overflowing the chunk size sent as PATCH (WWritePatch), Close flushing a PATCH (WClose),
+\* Commit with nothing written (WCommit).
+WriterFail == ("WPushBlob" :> "W.Write") @@ ("WWriteCommit" :> "W.Write") @@ ("WWritePatch" :> "W.Write") @@
+              ("WClose" :> "W.Close") @@ ("WCommit" :> "W.Commit")
+WriterCarriers == DOMAIN WriterFail
 HeadCarriers == {"ResolveBlob", "ResolveManifest", "ResolveTag"}
 Carriers == HeadCarriers \cup {"GetBlob", "GetBlobRange", "GetManifest", "GetTag", "PushBlob", "PushBlobChunked",
              "PushBlobChunkedResume", "MountBlob", "PushManifest", "DeleteBlob", "DeleteManifest", "DeleteTag",
-             "Repositories", "Tags", "Referrers"}
+             "Repositories", "Tags", "Referrers"} \cup WriterCarriers
 \* ociclient.PushBlob opens an upload session first: the backend method it reaches is PushBlobChunked
-BackendMethod(c) == IF c = "PushBlob" THEN "PushBlobChunked" ELSE c
+BackendMethod(c) == IF c = "PushBlob" THEN "PushBlobChunked" ELSE IF c \in WriterCarriers THEN WriterFail[c] ELSE c
+IsSuffix(m, x) == Len(m) <= Len(x) /\ SubSeq(x, Len(x) - Len(m) + 1, Len(x)) = m
+Strip(m) == IF m = <<E>> THEN <<>> ELSE m
 
 \* level 0: the value built by the harness is the tree of the case
 Level0OK(t, o) ==
@@ -68,7 +80,7 @@ ListCarriers == {"Repositories", "Tags", "Referrers"}
 EffPage(e) == IF e.carrier = "Referrers" \/ e.page = 0 THEN 1000 ELSE e.page
 Upto(n) == [i \in 1..n |-> i]
 
-BodyLevelOK(t, ref, o, w, k, o1, w1) ==
+BodyLevelOK(t, ref, o, w, k, o1, w1, writer) ==
   /\ o.isErr /\ o.http /\ o.status = Status(t)
   /\ o.hasCode /\ o.code = WireCode(t)
   /\ o.detail = WireDetail(t)
@@ -76,9 +88,13 @@ BodyLevelOK(t, ref, o, w, k, o1, w1) ==
   /\ w.status = Status(t) /\ ~w.empty /\ w.json /\ w.n = 1 /\ w.nreq >= 1
   /\ w.code = WireCode(t)
   /\ w.detail = WireDetail(t)
-  /\ IF k = 1 THEN w.msg \in {WireMsg(t, FALSE), WireMsg(t, TRUE)}
-     ELSE w.msg = w1.msg /\ o.msg = o1.msg
-  /\ o.msg = <<S(Status(t)), C(WireCode(t))>> \o (IF w.msg = <<E>> THEN <<>> ELSE w.msg)
+  /\ IF writer
+     \* servers and clients prepend their own context ("cannot flush data before commit", ...) on
+     \* these paths at every hop; what must survive is the registry's message, at the end
+     THEN \E x \in BOOLEAN : IsSuffix(Strip(WireMsg(t, x)), o.msg) /\ IsSuffix(Strip(WireMsg(t, x)), w.msg)
+     ELSE /\ IF k = 1 THEN w.msg \in {WireMsg(t, FALSE), WireMsg(t, TRUE)}
+             ELSE w.msg = w1.msg /\ o.msg = o1.msg
+          /\ o.msg = <<S(Status(t)), C(WireCode(t))>> \o (IF w.msg = <<E>> THEN <<>> ELSE w.msg)
 
 HeadLevelOK(t, o, w) ==
   LET h == HeadErr(Status(t)) IN
@@ -99,14 +115,14 @@ CaseOK(e) ==
   /\ e.nitems >= 0 /\ e.page >= 0
   /\ (e.carrier \notin ListCarriers) => (e.nitems = 0 /\ e.page = 0)
   /\ Len(e.reached) >= 1 /\ ToSet(e.reached) = {BackendMethod(e.carrier)}
-  /\ (e.nitems = 0) => Len(e.reached) = 1
+  /\ (e.nitems = 0 /\ e.carrier \notin WriterCarriers) => Len(e.reached) = 1
   /\ Level0OK(t, e.lv[1]) /\ e.lv[1].items = <<>>
   \* a listing that fails after items: exactly the items of the pages before the failing one, then the error
   /\ \A k \in 1..K : /\ e.lv[k + 1].items = Upto(Delivered(e.nitems, EffPage(e), k))
-                      /\ (e.nitems = 0) => e.wire[k].nreq = 1
+                      /\ (e.nitems = 0 /\ e.carrier \notin WriterCarriers) => e.wire[k].nreq = 1
   /\ \A k \in 1..K :
        IF e.carrier \in HeadCarriers THEN HeadLevelOK(t, e.lv[k + 1], e.wire[k])
-       ELSE BodyLevelOK(t, ref, e.lv[k + 1], e.wire[k], k, e.lv[2], e.wire[1])
+       ELSE BodyLevelOK(t, ref, e.lv[k + 1], e.wire[k], k, e.lv[2], e.wire[1], e.carrier \in WriterCarriers)
 
 TInit == l = 2
 TNext ==
